@@ -633,6 +633,25 @@ pub fn all_mutations(ty: &str, out: &crate::spec::GenOut) -> Vec<FieldCase> {
                 v.push((format!("subst-{name}:{l}"), t));
             }
         }
+        // every position of the part (up to 40) with a reduced set of foreign characters:
+        // a check that forgets one position of a fixed-shape component must not escape
+        for off in a..b.min(a + 40) {
+            if text.as_bytes()[off] == b'\n' {
+                continue;
+            }
+            for (name, rep) in [("dash", "-"), ("lower", "q"), ("space", " "), ("nonascii2", "é")] {
+                let mut t = text.clone();
+                t.replace_range(off..off + 1, rep);
+                v.push((format!("subst-{name}@{}:{l}", off - a), t));
+            }
+        }
+        if l == "Mmdd" {
+            for (n, d) in [("feb30", "0230"), ("apr31", "0431"), ("month13", "1301"), ("day32", "0132"), ("zero", "0000"), ("nov31", "1131")] {
+                let mut t = text.clone();
+                t.replace_range(a..b, d);
+                v.push((format!("bad-mmdd-{n}"), t));
+            }
+        }
         if l == "Date6" {
             for (n, d) in BAD_DATES {
                 let mut t = text.clone();
